@@ -89,3 +89,94 @@ def parse(text):
 
 DOCUMENTED_EXC = ('PolicyNotAuthorized', 'InvalidScope',
                   'InvalidContextObject', 'PolicyNotRegistered')
+
+
+class PolicyEnv:
+    """A scratch configuration directory with policy.yaml and policy.d/."""
+
+    def __init__(self):
+        self.scratch = Scratch()
+        self.dir = self.scratch.dir
+        self.clock = 1000000000
+
+    def close(self):
+        self.scratch.close()
+
+    def path(self, rel):
+        return os.path.join(self.dir, rel)
+
+    def write(self, rel, rules, fmt='yaml', raw=None):
+        import json
+        import yaml
+        p = self.path(rel)
+        os.makedirs(os.path.dirname(p), exist_ok=True)
+        if raw is None:
+            if fmt == 'json':
+                raw = json.dumps(rules, indent=1)
+            else:
+                raw = yaml.safe_dump(rules, default_flow_style=False) \
+                    if rules else ''
+        with open(p, 'w') as f:
+            f.write(raw)
+        self.tick(p)
+        return p
+
+    def tick(self, p=None):
+        """Advance the virtual clock; stamp *p* and its directory with it."""
+        self.clock += 10
+        if p is not None and os.path.exists(p):
+            os.utime(p, (self.clock, self.clock))
+            d = os.path.dirname(p)
+            if d != self.dir:
+                os.utime(d, (self.clock, self.clock))
+
+    def remove(self, rel):
+        p = self.path(rel)
+        if os.path.exists(p):
+            os.unlink(p)
+            d = os.path.dirname(p)
+            self.clock += 10
+            if d != self.dir:
+                os.utime(d, (self.clock, self.clock))
+
+    def conf(self, policy_dirs=('policy.d',), **overrides):
+        conf = new_conf(config_dir=self.dir)
+        conf.set_override('policy_dirs', list(policy_dirs),
+                          group='oslo_policy')
+        for k, v in overrides.items():
+            conf.set_override(k, v, group='oslo_policy')
+        return conf
+
+    def enforcer(self, defaults=(), policy_dirs=('policy.d',),
+                 policy_file=None, default_rule=None, **overrides):
+        conf = self.conf(policy_dirs=policy_dirs, **overrides)
+        enf = policy.Enforcer(conf, policy_file=policy_file,
+                              default_rule=default_rule)
+        enf.suppress_deprecation_warnings = True
+        if defaults:
+            enf.register_defaults(list(defaults))
+        return enf
+
+
+def decision(ctx, enf, name, creds, target=None, **kw):
+    """Summary of enf.enforce(name, target, creds) over all symbolic inputs."""
+    return ctx.summarize(
+        lambda: bool(enf.enforce(name, dict(target or {}), creds, **kw)))
+
+
+def require_decision(ctx, summ, want, label, key=None, detail=None):
+    """The summarised decision equals the z3 formula *want*, never raising."""
+    import z3
+    from pysym.proxies import mkbool
+    cond = z3.And(summ.truth() == want, z3.Not(summ.raises()))
+
+    def det(model):
+        d = {'got': summ.describe(model)}
+        if model is not None:
+            d['want'] = z3.is_true(model.eval(want, model_completion=True))
+        else:
+            d['want'] = str(z3.simplify(want))
+        if detail:
+            d['detail'] = detail
+        return d
+    ctx.require(mkbool(cond), label, key=key, detail=det)
